@@ -14,7 +14,7 @@ use svm::Ledger;
 
 fn worlds(thorough: bool) -> Vec<Built> {
     let mut v = vec![stdworlds::build_with_roots(&stdworlds::std_spec("c01-std-dff", [Enc::Dynamic, Enc::Fixed, Enc::Fixed], 3000, 300), &stdworlds::std_roots())];
-    v.push(stdworlds::build_with_roots(&stdworlds::chain_spec("c01-chain-fdd", [Enc::Fixed, Enc::Dynamic, Enc::Dynamic], 60000, 2500), &stdworlds::chain_roots()));
+    v.push(stdworlds::build_with_roots(&stdworlds::chain_spec("c01-chain-fdd-bump0", [Enc::Fixed, Enc::Dynamic, Enc::Dynamic], 60000, 2500), &stdworlds::chain_roots()));
     v.push(stdworlds::build_with_roots(&stdworlds::chain_spec("c01-dust-dfd", [Enc::Dynamic, Enc::Fixed, Enc::Dynamic], 3000, 2500), &stdworlds::dust_roots()));
     // a position bound exactly on a tick-array edge (tick 5632 = slot 0 of the next array), roots just below / just above it
     // (all three arrays variable-size: a bound on the edge booked through the neighbouring array has room there)
@@ -156,9 +156,55 @@ fn collect_states(b: &Built, depth: usize, cap: usize) -> Vec<Ledger> {
     all
 }
 
+/// The legacy `initialize_pool` carries a bump argument that is documented as ignored. A pool created with any value there must
+/// work like every other pool: positions can be opened and funded, trades settle, and everything can be paid out again (a pool
+/// that stored the argument could never sign for its vaults: funds go in and never come out).
+fn bump_arg_case(bump: u8) -> Result<(), String> {
+    let prev = std::panic::take_hook();
+    std::panic::set_hook(Box::new(|_| {}));
+    let built = std::panic::catch_unwind(|| {
+        let (l, w) = crate::world::build_std(&stdworlds::chain_spec(&format!("c01-arg-bump{bump}"), [Enc::Fixed, Enc::Dynamic, Enc::Dynamic], 3000, 300));
+        (l, w)
+    });
+    std::panic::set_hook(prev);
+    let (l, w) = match built {
+        Ok(x) => x,
+        Err(p) => {
+            let msg = p.downcast_ref::<String>().cloned().or_else(|| p.downcast_ref::<&str>().map(|s| s.to_string())).unwrap_or_default();
+            return Err(format!("a pool created through the legacy initialize_pool with bump argument {bump} cannot be set up like any other pool: {msg}"));
+        }
+    };
+    let seq = [
+        Op::Inc { pos: 0, liq: stdworlds::BIG, v2: false },
+        Op::Swap { a_to_b: true, exact_in: true, amount: 1_000_000, lim: crate::ops::Lim::None, v2: false },
+        Op::Swap { a_to_b: false, exact_in: true, amount: 1_000_000, lim: crate::ops::Lim::None, v2: true },
+        Op::Dec { pos: 0, part: crate::ops::Part::All, v2: true },
+        Op::CollectFees { pos: 0, v2: false },
+    ];
+    let mut cur = l;
+    for op in &seq {
+        let st = ops::apply(&cur, &w, op);
+        if !st.outcome.ok() {
+            return Err(format!("on a pool created through the legacy initialize_pool with bump argument {bump}, {op:?} fails: {}", st.outcome.short()));
+        }
+        cur = st.ledger;
+    }
+    oracles::c01_vault_invariant(&cur, &w).map(|_| ())
+}
+
 pub fn run(ctx: &Ctx) -> Report {
     let mut r = Report::new("C01", "model_checking");
     let thorough = !ctx.tier.is_quick();
+    let mut bump_cases = 0u64;
+    for bump in [0u8, 1, 255] {
+        bump_cases += 1;
+        if let Err(e) = bump_arg_case(bump) {
+            r.violation(format!("bump_arg/{bump}"), e, json!({"kind": "bump_arg", "bump": bump}));
+            r.set("pools_created_with_arbitrary_bump_argument", bump_cases);
+            return r;
+        }
+    }
+    r.set("pools_created_with_arbitrary_bump_argument", bump_cases);
     let ws = worlds(thorough);
     let share = ctx.budget_s * 0.75 / ws.len() as f64;
     let counters = Counters { vault_checks: AtomicU64::new(0), drains: AtomicU64::new(0), drain_instructions: AtomicU64::new(0) };
@@ -225,6 +271,9 @@ pub fn run(ctx: &Ctx) -> Report {
 }
 
 pub fn replay(case: &Value) -> Result<(), String> {
+    if case["kind"].as_str() == Some("bump_arg") {
+        return bump_arg_case(case["bump"].as_u64().ok_or("bump")? as u8);
+    }
     let ws = worlds(true);
     let name = case["world"].as_str().ok_or("world")?;
     let b = ws.iter().find(|b| b.name == name).ok_or("unknown world")?;
